@@ -449,10 +449,10 @@ func init() {
 // (skipSpacesReader, ...) are, in both implementations, exactly `return helper(r, args...)`: one static call
 // of the helper with the receiver (as a Reader) and the parameters in order, whose results are returned.
 func scanReaderDelegates(P *Program) []*Obl {
-	pairs := map[string]string{"SkipSpaces": "skipSpacesReader", "SkipBlankLines": "skipBlankLinesReader"}
+	pairs := map[string]string{"SkipSpaces": "skipSpacesReader", "SkipBlankLines": "skipBlankLinesReader", "FindClosure": "findClosureReader"}
 	var out []*Obl
 	for _, typ := range []string{"reader", "blockReader"} {
-		for _, m := range []string{"SkipBlankLines", "SkipSpaces"} {
+		for _, m := range []string{"FindClosure", "SkipBlankLines", "SkipSpaces"} {
 			name := "reader-delegates:(*" + typ + ")." + m
 			fn := P.funcs[modPath+"/text::(*"+typ+")."+m]
 			if fn == nil {
